@@ -2,6 +2,7 @@ package main
 
 import (
 	"fmt"
+	"go/token"
 	"go/types"
 	"sort"
 	"strconv"
@@ -86,6 +87,14 @@ func (ex *Exec) evalModPart(part string, se *SpecEnv) (locs []modLoc) {
 			panic(specErr{"unknown field in modifies: " + part})
 		}
 		return locs
+	}
+	if strings.HasPrefix(part, "slices ") {
+		t := ex.eng.parseType(se.pkg, strings.TrimSpace(part[7:]))
+		if t == nil {
+			panic(specErr{"slices <element type> expected: " + part})
+		}
+		cn, cs := ex.sliceComp(t)
+		return []modLoc{{comp: cn, sort: cs}}
 	}
 	if strings.HasPrefix(part, "maps ") {
 		t := ex.eng.parseType(se.pkg, strings.TrimSpace(part[5:]))
@@ -500,6 +509,12 @@ func (ex *Exec) applyContract(fr *frame, st *State, reach *Term, fn *ssa.Functio
 			results = rv
 		}
 	}
+	if _, abs := fc.Opts["abstract"]; abs {
+		// a side-effect free function of its arguments and the listed heap components
+		if rv := ex.abstractResults(pre, reach, fn, fc, args); rv != nil {
+			results = rv
+		}
+	}
 	if results == nil {
 		for i := 0; i < res.Len(); i++ {
 			v := ex.vc.FreshConst(cname+".res", ex.vc.SortOf(res.At(i).Type()))
@@ -669,6 +684,9 @@ func (eng *Engine) VerifyFunc(fn *ssa.Function, fc *FuncContract) (res *FuncResu
 		}
 		res.Warnings = ex.warn
 	}()
+	if _, abs := fc.Opts["abstract"]; abs {
+		ex.checkReads(fn, fc)
+	}
 	st0 := &State{heap: map[string]*Term{}, epoch: "0"}
 	fr := &frame{fn: fn, env: map[ssa.Value]Value{}, isTop: true, contract: fc, lets: map[string]specBinding{}}
 	var args []Value
@@ -865,4 +883,200 @@ func (ex *Exec) functionalResults(st *State, reach *Term, fn *ssa.Function, args
 		out = append(out, v)
 	}
 	return out
+}
+
+// ---- abstract (heap-dependent, side-effect free) functions ---------------------------------------------------
+// A function whose contract says `abstract` is used at call sites and in specifications as an uninterpreted
+// function of its arguments and of the current values of the heap components listed in its `reads`
+// clauses. Verifying the function itself checks `modifies nothing` (obligations) and that every heap read
+// of its body (transitively) is within the listed components (static scan).
+
+func (ex *Exec) readsComps(fc *FuncContract) []modLoc {
+	se := &SpecEnv{ex: ex, pkg: ex.eng.typesPkg(fc.Pkg), names: map[string]specBinding{}, cur: &State{heap: map[string]*Term{}, epoch: "scan"}, reach: TTrue}
+	se.old = se.cur
+	var out []modLoc
+	for _, c := range fc.Reads {
+		for _, part := range splitTop(c.Text, ',') {
+			part = strings.TrimSpace(part)
+			if part == "" {
+				continue
+			}
+			out = append(out, ex.evalModPart(part, se)...)
+		}
+	}
+	return out
+}
+
+func (ex *Exec) abstractResults(st *State, reach *Term, fn *ssa.Function, fc *FuncContract, args []Value) []Value {
+	var targs []*Term
+	var sorts []string
+	for _, a := range args {
+		t, ok := a.(*Term)
+		if !ok {
+			return nil
+		}
+		targs = append(targs, t)
+		sorts = append(sorts, string(t.Sort))
+	}
+	for _, l := range ex.readsComps(fc) {
+		if l.idx != nil {
+			panic(specErr{"reads clauses take whole components (comp T.f, maps map[K]V, global v)"})
+		}
+		ct := ex.comp(st, l.comp, l.sort)
+		targs = append(targs, ct)
+		sorts = append(sorts, string(ct.Sort))
+	}
+	res := fn.Signature.Results()
+	var out []Value
+	for i := 0; i < res.Len(); i++ {
+		name := fmt.Sprintf("abs.%s.%d", sanitize(funcKey(fn)), i)
+		rs := ex.vc.SortOf(res.At(i).Type())
+		ex.vc.declare(name, fmt.Sprintf("(declare-fun %s (%s) %s)", name, strings.Join(sorts, " "), rs))
+		out = append(out, App(name, rs, targs...))
+	}
+	return out
+}
+
+// checkReads: static check that the body of an abstract function reads only the listed components.
+func (ex *Exec) checkReads(fn *ssa.Function, fc *FuncContract) {
+	allowed := map[string]bool{}
+	for _, l := range ex.readsComps(fc) {
+		allowed[l.comp] = true
+	}
+	seen := map[*ssa.Function]bool{}
+	var bad []string
+	var scan func(f *ssa.Function, depth int)
+	note := func(comp string, in ssa.Instruction) {
+		if !allowed[comp] {
+			bad = append(bad, fmt.Sprintf("%s (at %s)", comp, ex.eng.fset.Position(in.Pos())))
+		}
+	}
+	scan = func(f *ssa.Function, depth int) {
+		if seen[f] || depth > 12 {
+			return
+		}
+		seen[f] = true
+		ms := newModSet()
+		for _, b := range f.Blocks {
+			for _, in := range b.Instrs {
+				switch x := in.(type) {
+				case *ssa.UnOp:
+					if x.Op != token.MUL {
+						continue
+					}
+					if ms.freshRoot(x.X) {
+						continue
+					}
+					if _, isAlloc := x.X.(*ssa.Alloc); isAlloc {
+						continue
+					}
+					if _, isFree := x.X.(*ssa.FreeVar); isFree {
+						continue
+					}
+					if g, isG := x.X.(*ssa.Global); isG {
+						if ex.eng.constFuncGlobal(g) != nil || ex.eng.nonNilGlobal(g) || g.Name() == "log" || g.Name() == "details" {
+							continue
+						}
+					}
+					if c, _, ok := ex.addrComp(nil, x.X); ok {
+						note(c, in)
+					} else {
+						t := derefType(x.X.Type())
+						if isStructType(t) {
+							su := t.Underlying().(*types.Struct)
+							for i := 0; i < su.NumFields(); i++ {
+								c, _, _ := ex.fieldComp(t, i)
+								note(c, in)
+							}
+						} else {
+							c, _ := ex.cellComp(t)
+							note(c, in)
+						}
+					}
+				case *ssa.Lookup:
+					if mt, ok := types.Unalias(x.X.Type()).Underlying().(*types.Map); ok {
+						d, v, _, _, _ := ex.mapComps(mt)
+						note(d, in)
+						note(v, in)
+					}
+				case *ssa.Range:
+					if mt, ok := types.Unalias(x.X.Type()).Underlying().(*types.Map); ok {
+						d, v, _, _, _ := ex.mapComps(mt)
+						note(d, in)
+						note(v, in)
+					}
+				case *ssa.Call:
+					cc := &x.Call
+					if cc.IsInvoke() {
+						it := types.Unalias(cc.Value.Type())
+						eff := ex.eng.ifaceEffect(it, cc.Method.Name())
+						if eff == effNoop || eff == effPure {
+							continue
+						}
+						bad = append(bad, fmt.Sprintf("interface call %s (at %s)", cc.Method.Name(), ex.eng.fset.Position(in.Pos())))
+						continue
+					}
+					if b, ok := cc.Value.(*ssa.Builtin); ok {
+						if b.Name() == "len" {
+							if mt, ok := types.Unalias(cc.Args[0].Type()).Underlying().(*types.Map); ok {
+								_, _, l, _, _ := ex.mapComps(mt)
+								note(l, in)
+							}
+						}
+						continue
+					}
+					callee := cc.StaticCallee()
+					if callee == nil {
+						if mc, ok := cc.Value.(*ssa.MakeClosure); ok {
+							callee = mc.Fn.(*ssa.Function)
+						}
+					}
+					if callee == nil {
+						// closures passed down (Foreach helpers): their bodies are scanned where they are made
+						continue
+					}
+					if _, ok := models[callee.String()]; ok {
+						continue
+					}
+					if o := callee.Origin(); o != nil {
+						if _, ok := genericModels[o.String()]; ok {
+							continue
+						}
+					}
+					if eff := ex.eng.effectOf(callee); eff == effPure || eff == effNoop {
+						continue
+					}
+					if cfc := ex.eng.cs.Funcs[funcKey(callee)]; cfc != nil {
+						if _, abs := cfc.Opts["abstract"]; abs {
+							for _, l := range ex.readsComps(cfc) {
+								note(l.comp, in)
+							}
+							continue
+						}
+					}
+					if len(callee.Blocks) > 0 {
+						scan(callee, depth+1)
+					} else {
+						bad = append(bad, fmt.Sprintf("call to %s (at %s)", callee, ex.eng.fset.Position(in.Pos())))
+					}
+				case *ssa.MakeClosure:
+					scan(x.Fn.(*ssa.Function), depth+1)
+				}
+			}
+		}
+	}
+	scan(fn, 0)
+	if len(bad) > 0 {
+		sort.Strings(bad)
+		uniq := bad[:0]
+		for i, b := range bad {
+			if i == 0 || b != bad[i-1] {
+				uniq = append(uniq, b)
+			}
+		}
+		if len(uniq) > 8 {
+			uniq = uniq[:8]
+		}
+		panic(unsupported(fmt.Sprintf("abstract function %s reads state outside its reads clause: %s", relName(fn), strings.Join(uniq, "; "))))
+	}
 }
